@@ -114,4 +114,50 @@ PROPS['C19'] = {
     'trusted_extra': ['Mathlib (Data.Rat.Floor, Algebra.Order.Field.Rat, FieldSimp, Ring) for the Q-equals-rationals lemmas only'],
 }
 
+PROPS['C05'] = {
+    'lean_targets': ['EmmetProps.C05', 'EmmetProps.C18'],
+    'lean_imports': ['EmmetProps.C05', 'EmmetProps.C18'],
+    'theorems': [
+        thm('EmmetProps.C05_hex6_roundtrip', 'all 2^24 colours: the six-digit form written by the colour printer reads back as the same (r,g,b) — a colour never changes its value'),
+        thm('EmmetProps.C05_hex3_roundtrip', 'all colours whose channels are multiples of 17: the short form reads back as the same (r,g,b)'),
+        thm('EmmetProps.C18_css', 'the value language is tokenized losslessly (tiling), property and value mode'),
+    ],
+    'domains': ['dom_style'],
+    'rule': 'value sequences generated from an AST (ints, floats .5 / 1. / 1.25, negatives, every unit alias and explicit units, 1/2/3/6-digit colours with and without .N alpha, !, +-joined parts) on unit-taking, unitless and colour properties, under css/scss/sass/less/stylus and random intUnit/floatUnit/shortHex/unitAliases; expected line computed from the statement; non-trivial = successful expansion; distinct = distinct (abbreviation, config)',
+    'explanation': 'The colour round trip is a theorem over all colours; number/unit/dash/important rendering is decided by correspondence (model = code on every generated input, end to end through the Config model) and by the statement-derived oracle on the implementation.',
+    'level_text': 'Lean 4 theorems: colour output round-trips for ALL colours (6-digit and short form); tokenizer tiling. Number, unit, dash and !important rendering: correspondence of the full stylesheet model with expand() + oracle computed from the statement (no theorem yet for those clauses).',
+    'level_note': 'Trusted: Lean kernel + standard axioms; hand-written model of css_abbreviation and stylesheet/{__init__,color,format,snippets,score}.py; decimals with more than 4 fraction digits are outside the model (unmodelled).',
+    'assumptions': [CORR, 'numbers with at most 4 fraction digits and 15 significant digits'],
+}
+
+PROPS['C06'] = {
+    'lean_targets': ['EmmetProps.C06'],
+    'lean_imports': ['EmmetProps.C06'],
+    'theorems': [
+        thm('EmmetProps.C06_keys', 'for EVERY key of the generated built-in table (regenerated from emmet/snippets/css.py on every run): the fuzzy matcher run on exactly that key selects that entry and no other (decide +kernel over the whole table)'),
+    ],
+    'domains': ['dom_style'],
+    'selfcheck': ['C06.keyOrderAgrees'],
+    'rule': 'exhaustive: every key of the live built-in table x stylesheet syntaxes x scopes (none, @@global, @@section, @@property); every dash-free keyword of every property snippet in lower/upper/capitalised form; random user tables with overriding and new keys; non-trivial = successful expansion; distinct = distinct (abbreviation, config)',
+    'explanation': 'Reachability of every key is a kernel-evaluated theorem over the regenerated table; that the table order used by the theorem is the order convert_snippets produces is evaluated by the driver on every run (selfcheck); output shape, keywords, user overrides and scopes are decided by correspondence + oracle.',
+    'level_text': 'Lean 4 theorem by kernel evaluation over the whole regenerated snippet table: each key selects its own entry. Output shape (property: first value | tabstop; raw body), keyword resolution, user overrides and scope filtering: exhaustive correspondence over the table + statement-derived oracle.',
+    'level_note': 'Trusted: Lean kernel + standard axioms; translator (table by evaluation); model of score.py / snippets.py; the order link is a run-time evaluation, not a theorem. Excluded: key `lg` as a user override (hard-wired gradient shortcut), value scope.',
+    'assumptions': [CORR],
+}
+
+PROPS['C07'] = {
+    'lean_targets': ['EmmetProps.C07'],
+    'lean_imports': ['EmmetProps.C07'],
+    'theorems': [
+        thm('EmmetProps.C07_markup_tokenize_parse', 'every string, both JSX modes: the markup tokenizer + parser model returns a forest, a scanner error with position <= |s| or a token error; never an internal error, never out of fuel', partial=True),
+        thm('EmmetProps.C07_css_tokenize', 'every string, both modes: the stylesheet tokenizer model returns tokens or a scanner error with position <= |s|', partial=True),
+    ],
+    'domains': ['dom_expand', 'dom_style'],
+    'rule': 'all strings up to length 2 (quick) / 3 (thorough) over the 26-symbol abbreviation alphabet x 4 configurations, random and mutated abbreviations under random configurations (all markup syntaxes incl. unknown, random output options, wrap text incl. empty / blank, context, user snippets / variables, maxRepeat) and stylesheet abbreviations under random stylesheet configurations; non-trivial = successful expansion longer than a few characters; distinct = distinct (abbreviation, config)',
+    'explanation': 'Stage theorems exist for the tokenizers and the markup parser (all strings). The later stages (convert, snippets, transforms, formatters, stylesheet resolver) are covered by correspondence: the model reports the same outcome class and error position as the code on every explored input, and the oracle flags any escaping internal error directly.',
+    'level_text': 'Lean 4 theorems for the first stages of both pipelines over ALL strings (no internal error, in-range positions, fuel suffices) — partial: the remaining stages are decided by correspondence (outcome class + position equal to the model on every explored input) and the direct oracle on expand().',
+    'level_note': 'Trusted: Lean kernel + standard axioms; hand-written pipeline models. Not modelled: lorem text (random), BEM, comments, JSON mode, value scope — those are exercised by the oracle on the implementation only. Termination of the random lorem generator and CPython recursion limits are outside the technique.',
+    'assumptions': [CORR],
+}
+
 NOT_APPLICABLE = {}
